@@ -74,6 +74,9 @@ func (c *Ctx) Check(rule, construct string, pos token.Pos, ok bool, expected, fo
 
 func (c *Ctx) add(o Obligation) {
 	c.Obs = append(c.Obs, o)
+	if verbose {
+		fmt.Printf("  [%v canary=%v] %s at %s: expected %q found %q\n", o.OK, o.Canary, o.Key, o.Pos, trunc(o.Expected, 120), trunc(o.Found, 160))
+	}
 	if o.Canary {
 		return
 	}
